@@ -57,7 +57,7 @@ def run(rep, tier, seed, model_ok=True, effort=1):
             fs.lines = [([rwgen.Seg("text", "download "), rwgen.Seg("occ", 0), rwgen.Seg("text", " "), rwgen.Seg("occ", 1), rwgen.Seg("text", " now")], "\n"),
                         ([rwgen.Seg("text", "end")], "\n")]
             spec["files"].append(fs)
-            scripted = ["update", "no-tag", "update", "allow-dirty", "update"]
+            scripted = ["update", "no-tag", "update", "vcs-rejects", "allow-dirty", "update"]
         spec["cfg_prefix"] = ""
         if h == 3:
             # corpus history: a glob entry (*.toml) covers the config file itself with a pattern for another of its lines; the config's own
@@ -93,7 +93,7 @@ def run(rep, tier, seed, model_ok=True, effort=1):
             trace = []
             on_feature = False
             for s in range(steps):
-                op = scripted[s] if scripted else r.choice(["update", "update", "update", "update", "fail", "no-commit", "no-tag", "unrelated", "branch", "allow-dirty"])
+                op = scripted[s] if scripted else r.choice(["update", "update", "update", "update", "fail", "no-commit", "no-tag", "unrelated", "branch", "allow-dirty", "vcs-rejects"])
                 dirty_file = None
                 if op == "allow-dirty":
                     # an unrelated tracked file has unstaged edits; --allow-dirty must leave it out of the bump commit
@@ -125,6 +125,27 @@ def run(rep, tier, seed, model_ok=True, effort=1):
                     trace.append("OBranch")
                     continue
                 date = rwgen.avoid_week53(spec["vp"], date + dt.timedelta(days=(0 if s == 0 else 40) if same_day else r.choice([0, 1, 31, 400])))
+                if op == "vcs-rejects":
+                    # the repository refuses the commit (a silent pre-commit hook of git itself): the update fails, nothing is committed or tagged;
+                    # the half-done work is then discarded and the history goes on from the previous state
+                    gitdir = prj.git("rev-parse", "--git-common-dir").strip()
+                    hook = os.path.join(gitdir if os.path.isabs(gitdir) else os.path.join(prj.dir, gitdir), "hooks", "pre-commit")
+                    os.makedirs(os.path.dirname(hook), exist_ok=True)
+                    open(hook, "w").write("#!/bin/sh\nexit 1\n")
+                    os.chmod(hook, 0o755)
+                    code, out, logs, exc = prj.run(impl, ["update", "--no-fetch", "--date", date.isoformat()] + spec["flags"])
+                    os.unlink(hook)
+                    tags1, n1, _ = git_state(prj)
+                    rep.case((h, s, op), nontrivial=True)
+                    rep.count("op=vcs-rejects")
+                    if code == 0 or n1 != n0 or tags1 != tags0:
+                        rep.violation("the repository refused the commit, yet update exits %s (commits %d -> %d, tags %s -> %s)" % (code, n0, n1, len(tags0), len(tags1)),
+                                      input=dict(version_pattern=spec["vp"], start=spec["old"], history_index=h, step=s, op=op, exit=code, logs=logs[-3:]), **{"class": "fail-changed-state"})
+                    prj.git("reset", "-q", "--hard", "HEAD")
+                    for t_ in set(tags1) - set(tags0):
+                        prj.git("tag", "-d", t_)
+                    trace.append("OFail")
+                    continue
                 args = ["update", "--no-fetch", "--date", date.isoformat()] + spec["flags"]
                 if op == "fail":
                     args += r.choice([["--set-version", cur], ["--tag", "nonsense"], ["--pin-date"]])
